@@ -45,9 +45,62 @@ def expand(fn, expr, depth=6, stop=()):
                 return node
             defs = local_defs(fn, node.id)
             if len(defs) == 1 and defs[0] is not OPAQUE:
-                return Sub(self.depth - 1).visit(copy.deepcopy(defs[0]))
+                d = defs[0]
+                if isinstance(d, (ast.List, ast.Dict, ast.Set)) or (isinstance(d, ast.Call) and isinstance(d.func, ast.Name)
+                                                                    and d.func.id in ("list", "dict", "set", "bytearray")):
+                    built = _built_list(fn, node, d)
+                    if built is None:
+                        return node          # a display mutated after its definition is not its definition
+                    d = built
+                return Sub(self.depth - 1).visit(copy.deepcopy(d))
             return node
     return Sub(depth).visit(copy.deepcopy(expr))
+
+
+_MUTATORS = {"append", "extend", "insert", "pop", "remove", "clear", "sort", "reverse", "add", "discard", "update", "setdefault",
+             "popitem", "appendleft", "popleft"}
+
+
+def _built_list(fn, use, definition):
+    """the value of a once-bound local display at `use`: the display itself when nothing mutates it; a list literal
+    followed by `name.append(e)` statements in the same block (straight-line, before the use) is the literal with those
+    elements appended; any other mutation -> None"""
+    name = use.id
+    muts = []
+    for n in walk_shallow(fn):
+        if isinstance(n, ast.Attribute) and isinstance(n.value, ast.Name) and n.value.id == name and n.attr in _MUTATORS:
+            muts.append(n)
+        elif isinstance(n, ast.Subscript) and isinstance(n.value, ast.Name) and n.value.id == name and isinstance(n.ctx, (ast.Store, ast.Del)):
+            return None
+        elif isinstance(n, ast.AugAssign) and isinstance(n.target, ast.Name) and n.target.id == name:
+            return None
+    if not muts:
+        return definition
+    if not isinstance(definition, ast.List):
+        return None
+    dst = getattr(definition, "_parent", None)
+    block = None
+    if isinstance(dst, ast.Assign):
+        par = getattr(dst, "_parent", None)
+        for f in ("body", "orelse", "finalbody"):
+            if dst in (getattr(par, f, None) or []):
+                block = getattr(par, f)
+    if block is None:
+        return None
+    elts = list(definition.elts)
+    upos = (getattr(use, "lineno", 0), getattr(use, "col_offset", 0))
+    for m in muts:
+        call = getattr(m, "_parent", None)
+        st = getattr(call, "_parent", None)
+        if not (m.attr == "append" and isinstance(call, ast.Call) and call.func is m and len(call.args) == 1 and not call.keywords
+                and isinstance(st, ast.Expr) and st in block and block.index(st) > block.index(dst)
+                and (st.lineno, st.col_offset) < upos):
+            return None
+    for st in block[block.index(dst) + 1:]:
+        if isinstance(st, ast.Expr) and isinstance(st.value, ast.Call) and isinstance(st.value.func, ast.Attribute) and st.value.func in muts:
+            elts.append(st.value.args[0])
+    out = ast.List(elts=elts, ctx=ast.Load())
+    return ast.copy_location(out, definition)
 
 
 def call_arg(call, pos=None, kw=None):
